@@ -60,6 +60,9 @@ def program_text(kind, seed):
         from .. import rawfiles
         progs = [data.decode("utf-8") for name, data, k in rawfiles.cases() if name == "builtin_in_container"]
         return progs[seed % len(progs)]
+    if kind == "frontend":
+        from . import c17
+        return c17.FRONT_END_ERRORS[seed % len(c17.FRONT_END_ERRORS)]
     if kind == "hashy":
         prog = hashy_program(seed)
     elif kind == "fail":
@@ -74,7 +77,7 @@ def program_text(kind, seed):
     return r.text
 
 
-CONFIGS = ["base", "cwd_parent", "dot_slash", "absolute", "dotdot", "symlink", "cwd_root", "env_polluted", "env_locale", "env_backtrace",
+CONFIGS = ["base", "cwd_parent", "dot_slash", "absolute", "dotdot", "symlink", "cwd_root", "env_polluted", "env_locale", "env_backtrace", "env_terminal",
            "stdin_closed", "stdin_pipe", "stdout_file", "repeat1", "repeat2", "repeat3"]
 
 
@@ -101,6 +104,8 @@ def run_config(binary, d, cfg, rng):
                "RUST_LOG": "trace", "COLUMNS": "7", "LINES": "3", "SEED_PATH": "/x", "SEED_DEBUG": "1", "DEBUG": "1", "CLICOLOR_FORCE": "1"}
         for i in range(50):
             env["V%d_%d" % (i, rng.randrange(1000))] = str(rng.random())
+    elif cfg == "env_terminal":
+        env = {"COLUMNS": str(rng.choice([20, 40, 80, 132])), "LINES": "24", "TERM": "xterm-256color", "COLORTERM": "truecolor", "FORCE_COLOR": "1", "CLICOLOR": "1", "PAGER": "less", "LESS": "-R", "SHELL": "/bin/sh", "USER": "u", "PWD": "/"}
     elif cfg == "env_locale":
         env = {"LC_ALL": "tr_TR.UTF-8", "LANG": "tr_TR.UTF-8", "LANGUAGE": "tr"}
     elif cfg == "env_backtrace":
@@ -371,7 +376,7 @@ def run(rep, tier):
     nprog = 900 if tier == "quick" else 12000
     jobs = []
     for i in range(nprog):
-        kind = ["hashy", "progen", "fail", "hashy", "builtin"][i % 5] if i % 20 == 4 else ["hashy", "progen", "fail", "hashy"][i % 4]
+        kind = ["hashy", "progen", "fail", "hashy", "builtin"][i % 5] if i % 20 == 4 else (["frontend", "fail"][(i // 10) % 2] if i % 10 == 9 else ["hashy", "progen", "fail", "hashy"][i % 4])
         jobs.append((kind, rng.randrange(1 << 40), core.BIN_PLAIN if i % 3 else core.BIN_VERIF))
     for res in core.pool().imap_unordered(perturb_work, jobs, chunksize=2):
         if res["skipped"]:
